@@ -300,6 +300,67 @@ impl<K: El, V: El> Mon<K, V> {
                 let r = st0.r as u64;
                 out.kind = Kind::Bulk { new_keys, hashes_max: Some(pairs.len() as u64 * (r + 1) + split_before), may_alloc: true };
             }
+            ExtendHinted => {
+                struct Hinted<I> {
+                    it: I,
+                    lo: usize,
+                }
+                impl<I: Iterator> Iterator for Hinted<I> {
+                    type Item = I::Item;
+                    fn next(&mut self) -> Option<I::Item> {
+                        self.it.next()
+                    }
+                    fn size_hint(&self) -> (usize, Option<usize>) {
+                        (self.lo, None)
+                    }
+                }
+                let pairs: Vec<(u64, u64)> = op.list.chunks(2).map(|c| (c[0], c[1])).collect();
+                let items: Vec<(K, V)> = pairs.iter().map(|(a, b)| (K::mk(*a), V::mk(*b))).collect();
+                let ids: Vec<(u64, u64)> = items.iter().map(|(a, b)| (a.id(), b.id())).collect();
+                let lo = op.n as usize;
+                let amount = if self.map.is_empty() { lo } else { lo.saturating_add(1) / 2 };
+                if reserve_must_fail(st0, amount) {
+                    self.stats.overflow_args += 1;
+                }
+                let r = m!(out, {
+                    let map = &mut self.map;
+                    catch(move || map.extend(Hinted { it: items.into_iter(), lo }))
+                });
+                match r {
+                    Ok(()) => {
+                        out.act.push(0);
+                        // (the iterator may have lied about its length: returning normally is
+                        // not wrong in itself; a profile-dependent outcome is C17's business)
+                        for ((a, b), (kid, vid)) in pairs.iter().zip(ids) {
+                            match self.model.get_mut(a) {
+                                Some(s) => {
+                                    out.expect_dropped.push(kid);
+                                    out.expect_dropped.push(s.vid);
+                                    s.vid = vid;
+                                    s.pay = *b;
+                                }
+                                None => {
+                                    self.model.insert(*a, Slot { kid, vid, pay: *b });
+                                }
+                            }
+                        }
+                    }
+                    Err(p) => {
+                        rethrow_fuse(&p);
+                        out.act.push(2);
+                        if !p.contains("capacity overflow") || !reserve_may_fail(st0, amount) {
+                            return Err(Viol { prop: "C01", more: &["C10"], msg: format!("extend from an iterator claiming at least {lo} items: undocumented panic: {p}") });
+                        }
+                        self.stats.expected_panics += 1;
+                        for (kid, vid) in ids {
+                            out.expect_dropped.push(kid);
+                            out.expect_dropped.push(vid);
+                        }
+                    }
+                }
+                out.exp.push(out.act[0]);
+                out.kind = Kind::Capacity;
+            }
             FromIter => {
                 let pairs: Vec<(u64, u64)> = op.list.chunks(2).map(|c| (c[0], c[1])).collect();
                 let items: Vec<(K, V)> = pairs.iter().map(|(a, b)| (K::mk(*a), V::mk(*b))).collect();
